@@ -26,6 +26,10 @@ def _q(x):
 def layout_text(lay):
     if lay is None:
         return ""
+    if "other" in lay:
+        r = lay["other"]
+        ds = ", ".join(f"d{i}" for i in range(r))
+        return f", affine_map<({ds}) -> ({ds})>"
     if "tsl" in lay:
         t = lay["tsl"]
         parts = [f"[{', '.join(_q(s[1]) for s in d)}] -> ({', '.join(_q(s[0]) for s in d)})" for d in t["ts"]]
@@ -96,6 +100,16 @@ def interp_block(block, env, rts, calls):
             calls.append(["copy"])
         else:
             raise Unsupported(op.name)
+
+
+def nest_bounds(block, env):
+    """trip counts of the emitted scf.for nest, outermost first (loops of trip count 1 are invisible in the call
+    sequence, so the nest itself is compared too)."""
+    from xdsl.dialects import scf
+    for op in block.ops:
+        if isinstance(op, scf.ForOp):
+            return [env[op.ub]] + nest_bounds(op.body.block, env)
+    return []
 
 
 def moves_of_call(c):
@@ -437,7 +451,7 @@ def gen_special(rng):
 
 def gen_malformed(rng):
     """inputs outside the property's quantifier: the two sides must only agree on the outcome."""
-    fam = rng.randrange(4)
+    fam = rng.randrange(9)
 
     def ty(shape, lay, elt="i32", el=4, isint=True):
         return {"shape": shape, "elt": elt, "el": el, "int": isint, "layout": lay}
@@ -458,6 +472,29 @@ def gen_malformed(rng):
                 "src": ty([None], {"tsl": {"ts": [[[4, 2], [1, None]]], "offset": 0}}),
                 "dst": ty([None], None),
                 "rs": rt(SRC_BASE, [8]), "rd": rt(DST_BASE, [8])}
+    if fam == 4:  # rank 0, default layout: `assert total_size_op is not None` in MatchSimpleCopy
+        return {"kind": "malformed", "src": ty([], None), "dst": ty([], None),
+                "rs": rt(SRC_BASE, []), "rd": rt(DST_BASE, [])}
+    if fam == 5:  # rank 0, strided: `if not strides: return`
+        lay = {"strided": [], "offset": 0}
+        return {"kind": "malformed", "src": ty([], lay), "dst": ty([], lay),
+                "rs": rt(SRC_BASE, []), "rd": rt(DST_BASE, [])}
+    if fam == 6:  # a layout attribute that is neither strided nor TSL: NotImplementedError in extract_strides
+        other = {"other": 2}
+        good = rng.choice([None, {"strided": [4, 1], "offset": 0}, {"tsl": {"ts": [[[4, 2]], [[1, 4]]], "offset": 0}},
+                           other])
+        pair = [ty([2, 4], other), ty([2, 4], good)]
+        if rng.random() < 0.5:
+            pair.reverse()
+        return {"kind": "malformed", "src": pair[0], "dst": pair[1],
+                "rs": rt(SRC_BASE, [2, 4], [4, 1]), "rd": rt(DST_BASE, [2, 4], [4, 1])}
+    if fam == 7:  # index elements: not a FixedBitwidthType, MatchSimpleCopy asserts before looking at the layout
+        lay = rng.choice([None, {"strided": [1], "offset": 0}])
+        return {"kind": "malformed", "src": ty([4], lay, "index", 0, False), "dst": ty([4], lay, "index", 0, False),
+                "rs": rt(SRC_BASE, [4], [1]), "rd": rt(DST_BASE, [4], [1])}
+    if fam == 8:  # float elements, default layout: MatchSimpleCopy lowers them (only TransformDMA wants integers)
+        return {"kind": "malformed", "src": ty([3, 4], None, "f32", 4, False), "dst": ty([3, 4], None, "f32", 4, False),
+                "rs": rt(SRC_BASE, [3, 4]), "rd": rt(DST_BASE, [3, 4])}
     # remaining strides with a dynamic last LCB member: assert lcb[-1].bound is not None
     lay = {"tsl": {"ts": [[[None, 2]], [[1, None]]], "offset": 0}}
     lay2 = {"tsl": {"ts": [[[None, 2]], [[1, None]]], "offset": 0}}
@@ -549,10 +586,11 @@ class C05(Prop):
         a, b = f.body.block.args
         rts = {a: case["rs"], b: case["rd"]}
         calls = []
-        interp_block(f.body.block, {}, rts, calls)
+        env = {}
+        interp_block(f.body.block, env, rts, calls)
         if calls == [["copy"]]:
             return {"unchanged": True}
-        out = {"calls": calls}
+        out = {"calls": calls, "nest": nest_bounds(f.body.block, env)}
         if log:
             out["tS"], out["tD"], out["lcb"] = log[0]
         return out
@@ -586,7 +624,7 @@ class C05(Prop):
         p = r["prog"]
         x = p["xfer"]
         calls = [[x[0], s, d] + x[1:] for s, d in p["calls"]]
-        out = {"calls": calls}
+        out = {"calls": calls, "nest": [l[0] for l in p["loops"]]}
         if r["path"] == "transform":
             out["tS"], out["tD"], out["lcb"] = r["tS"], r["tD"], r["lcb"]
             out["_addrs"] = r["addrs"]
@@ -613,6 +651,15 @@ class C05(Prop):
             if m.get("calls"):
                 # model addresses are relative to the pointers after offset application
                 pass
+            for side in ("src", "dst"):
+                # the specification side itself against the real TiledStridedLayoutAttr.get_affine_map (static TSL)
+                lay = case[side]["layout"]
+                if lay and "tsl" in lay and all(s[0] is not None and s[1] is not None for d in lay["tsl"]["ts"] for s in d):
+                    f = fs if side == "src" else fd
+                    for idx in self._sample_idxs(case):
+                        if f(idx) != static_tsl_addr_real(case[side], idx):
+                            return (f"specification address of {side}{idx} = {f(idx)} but get_affine_map says "
+                                    f"{static_tsl_addr_real(case[side], idx)}")
             for idx, (ms, md) in zip(self._sample_idxs(case), addrs):
                 es, ed = el * fs(idx), el * fd(idx)
                 e0s, e0d = el * fs([0] * len(idx)), el * fd([0] * len(idx))
@@ -690,7 +737,8 @@ class C05(Prop):
         if isinstance(impl_out, dict) and impl_out.get("unchanged"):
             return base + ":unchanged"
         c = impl_out.get("calls") or [["none"]]
-        return base + ":" + c[0][0] + ("+loops" if len(c) > 1 else "")
+        n = len(impl_out.get("nest") or [])
+        return base + ":" + c[0][0] + (f"+{n}loops" if n else "")
 
     def shrink(self, case):
         # smaller run-time extents for dynamic dims; drop offsets
